@@ -1,5 +1,5 @@
 """Checks of the run-time families: C07 (Clone), C08 (struct operators), C09 (impl operators)."""
-import json, os, random, itertools
+import json, os, random, itertools, re
 import dxlib as dx
 import runfam as rf
 from checks_cmp import compile_run_modules
@@ -63,12 +63,13 @@ def run_modules(mods, tag):
 # ------------------------------------------------------------------------------------------------
 # C07
 # ------------------------------------------------------------------------------------------------
-def c07(tier):
-    ck = dx.Check("C07", tier)
+def c07(tier, hook=None):
+    ck = hook["ck"] if hook else dx.Check("C07", tier)
+    T = (hook or {}).get("transform") or (lambda ms: ms)
     st, outp = dx.tlc_run("MC_Clone", "MC_Clone.cfg", "mc_clone", workers=1)
     if not st["ok"]:
         ck.violation({"kind": "model", "invariants": st["violated"]}, {"tlc_output": outp, "tail": open(outp).read()[-2000:]})
-        return ck.finish()
+        return ck.finish() if not hook else None
     ck.add_model(st)
     steps = dx.parse_prints(open(outp).read(), "STEP")
     ck.notes["model"] = {"module": "MC_Clone", "states": st.get("distinct"), "transitions_emitted": len(steps)}
@@ -82,8 +83,12 @@ def c07(tier):
                 for generic in ((False, True) if tier == "thorough" or mask == 0 else (False,)):
                     if generic and sum(sh) == 0:
                         continue          # a type parameter must be used by some field
-                    guises.append((sh, mask, entry, generic))
-    mods = [(i, rf.clone_module(i, list(g[0]), g[2], g[1], g[3])) for i, g in enumerate(guises)]
+                    guises.append((sh, mask, entry, generic, (), None))
+        # Clone next to other derived traits / with bound(...) arguments: the Clone impl must not change
+        for extra, bounds in ((("Copy",), None), (("Debug", "PartialEq"), None), ((), "shared_empty"), ((), "this_dd"), (("Copy",), "shared_dd")):
+            for entry in (("attr", "derive") if tier == "thorough" else ("attr",)):
+                guises.append((sh, masks[-1], entry, False, extra, bounds))
+    mods = [(i, rf.clone_module(i, list(g[0]), g[2], g[1], g[3], g[4], g[5])) for i, g in enumerate(guises)]
     # seeded histories (stateful validation of longer runs)
     rnd = random.Random(dx.seed())
     nh = 40 if tier == "quick" else 400
@@ -102,6 +107,7 @@ def c07(tier):
         idx = len(mods)
         mods.append((idx, rf.clone_history_module(idx, sh, rnd.choice(["attr", "derive"]), rnd.randrange(1 << len(sh)), script)))
         hist.append((idx, sh, script))
+    mods = T(mods)
     res, failed = run_modules(mods, "c07")
     events, meta = [], []
     for i, g in enumerate(guises):
@@ -153,18 +159,19 @@ def c07(tier):
     ck.cov["rule"] = ("every transition of the MC_Clone state graph (all shapes, all ordered value pairs, clone and clone_from in both directions) replayed on "
                       "tuple/named/generic guises through both entry points, plus seeded 12-step histories validated with state")
     ck.cov["exhaustive"] = True
-    return ck.finish()
+    return ck.finish() if not hook else None
 
 
 # ------------------------------------------------------------------------------------------------
 # C08
 # ------------------------------------------------------------------------------------------------
-def c08(tier):
-    ck = dx.Check("C08", tier)
+def c08(tier, hook=None):
+    ck = hook["ck"] if hook else dx.Check("C08", tier)
+    T = (hook or {}).get("transform") or (lambda ms: ms)
     st, outp = dx.tlc_run("MC_Ops", "MC_Ops.cfg", "mc_ops", workers=2)
     if not st["ok"]:
         ck.violation({"kind": "model", "invariants": st["violated"]}, {"tlc_output": outp, "tail": open(outp).read()[-2000:]})
-        return ck.finish()
+        return ck.finish() if not hook else None
     ck.add_model(st)
     plans = dx.parse_prints(open(outp).read(), "PLAN")
     ck.notes["model"] = {"module": "MC_Ops", "states": st.get("distinct"), "plans": len(plans)}
@@ -176,8 +183,13 @@ def c08(tier):
                 for generic in ((False, True) if n in (1, 2) else (False,)):
                     if generic and kind == "unit":
                         continue
-                    guises.append((n, kind, entry, generic))
-    mods = [(i, rf.ops_module(i, g[0], g[1], g[2], generic=g[3])) for i, g in enumerate(guises)]
+                    guises.append((n, kind, entry, generic, None))
+    # explicit bound(...) arguments must not change what the operators compute
+    for bounds in ("shared_empty", "this_dd", "this_empty", "field_empty"):
+        for (n, kind) in ((2, "tuple"), (3, "named"), (1, "named")):
+            guises.append((n, kind, "attr" if bounds != "this_dd" else "derive", False, bounds))
+    mods = [(i, rf.ops_module(i, g[0], g[1], g[2], generic=g[3], bounds=g[4])) for i, g in enumerate(guises)]
+    mods = T(mods)
     res, failed = run_modules(mods, "c08")
     events, meta = [], []
     for i, g in enumerate(guises):
@@ -213,7 +225,7 @@ def c08(tier):
     ck.cov["distinct_nontrivial"] = len(set(json.dumps(e, sort_keys=True) for e in events))
     ck.cov["rule"] = "10 binary operators x 4 reference forms, 10 compound assignments x 2, Neg/Not x 2, on unit/tuple/named structs with 0..4 free-term-algebra fields (plus generic instances), both entry points"
     ck.cov["exhaustive"] = True
-    return ck.finish()
+    return ck.finish() if not hook else None
 
 
 # ------------------------------------------------------------------------------------------------
@@ -234,12 +246,13 @@ def impl_forms_of(resp, op):
     return binf, asg
 
 
-def c09(tier):
-    ck = dx.Check("C09", tier)
+def c09(tier, hook=None):
+    ck = hook["ck"] if hook else dx.Check("C09", tier)
+    T = (hook or {}).get("transform") or (lambda ms: ms)
     st, outp = dx.tlc_run("MC_Ops", "MC_Ops.cfg", "mc_ops", workers=2)
     if not st["ok"]:
         ck.violation({"kind": "model", "invariants": st["violated"]}, {"tlc_output": outp, "tail": open(outp).read()[-2000:]})
-        return ck.finish()
+        return ck.finish() if not hook else None
     ck.add_model(st)
     cfgs = dx.parse_prints(open(outp).read(), "IMPLCFG")
     ck.notes["model"] = {"module": "MC_Ops", "states": st.get("distinct"), "impl_configs": len(cfgs)}
@@ -254,6 +267,7 @@ def c09(tier):
                 descs.append(d)
                 reqs.append({"k": "expand", "id": idx, "entry": "attr", "attr": req["attr"], "item": req["item"]})
     resps = dx.expand(reqs)
+    mods = T(mods)
     res, failed = run_modules(mods, "c09")
     events, meta = [], []
     for idx, d in enumerate(descs):
@@ -289,4 +303,352 @@ def c09(tier):
     ck.cov["distinct_nontrivial"] = len(set(json.dumps(e, sort_keys=True) for e in events))
     ck.cov["rule"] = "operators x 4 base forms x Rhs in {Self, other type} x requested {Op},{OpAssign},{Op,OpAssign}, and base OpAssign<Rhs|&Rhs> with {Op}; every generated form called once with logging operands"
     ck.cov["exhaustive"] = True
-    return ck.finish()
+    return ck.finish() if not hook else None
+
+
+# ------------------------------------------------------------------------------------------------
+# C10
+# ------------------------------------------------------------------------------------------------
+def debug_descs(tier, rnd):
+    descs = []
+    nleaf = len(rf.LEAF_TYPES)
+    fid = [0]
+
+    def fields(n, shape, dbgs, gen=False):
+        out = []
+        for j in range(n):
+            fid[0] += 1
+            out.append({"name": "f%d" % j, "ty": (fid[0] + j) % nleaf, "dbg": dbgs[j], "gen": False})
+        return out
+    # structs: unit, tuple / named with 0..3 fields, every subset ignored, each choice of transparent
+    for shape in ("unit", "tuple", "named"):
+        for n in ((0,) if shape == "unit" else (0, 1, 2, 3)):
+            opts = [["none", "ignore"]] * n
+            combos = list(itertools.product(*opts)) if n else [()]
+            for dbgs in combos:
+                descs.append({"kind": "struct", "variants": [{"name": "S%d" % len(descs), "shape": shape, "fields": fields(n, shape, dbgs)}]})
+            for tpos in range(n):
+                for others in (["none"] * n, ["ignore"] * n):
+                    dbgs = list(others)
+                    dbgs[tpos] = "transparent"
+                    descs.append({"kind": "struct", "variants": [{"name": "S%d" % len(descs), "shape": shape, "fields": fields(n, shape, dbgs)}]})
+    # enums mixing variant kinds
+    for k in range(12 if tier == "quick" else 80):
+        vs = []
+        for vi in range(rnd.choice([1, 2, 3, 4])):
+            shape = rnd.choice(["unit", "tuple", "named"])
+            n = 0 if shape == "unit" else rnd.choice([0, 1, 2, 3])
+            dbgs = [rnd.choice(["none", "none", "ignore"]) for _ in range(n)]
+            if n and rnd.random() < 0.25:
+                dbgs[rnd.randrange(n)] = "transparent"
+            vs.append({"name": "V%d" % vi, "shape": shape, "fields": fields(n, shape, dbgs)})
+        descs.append({"kind": "enum", "variants": vs})
+    # field-less enums (std prints the bare name)
+    descs.append({"kind": "enum", "variants": [{"name": "Red", "shape": "unit", "fields": []}, {"name": "Green", "shape": "unit", "fields": []}]})
+    return descs
+
+
+def c10(tier, hook=None):
+    ck = hook["ck"] if hook else dx.Check("C10", tier)
+    T = (hook or {}).get("transform") or (lambda ms: ms)
+    st, outp = dx.tlc_run("MC_Debug", "MC_Debug.cfg", "mc_debug", workers=4)
+    if not st["ok"]:
+        ck.violation({"kind": "model", "invariants": st["violated"]}, {"tlc_output": outp, "tail": open(outp).read()[-2000:]})
+        return ck.finish() if not hook else None
+    ck.add_model(st)
+    ck.notes["model"] = {"module": "MC_Debug", "states": st.get("distinct")}
+    rnd = random.Random(dx.seed())
+    descs = debug_descs(tier, rnd)
+    mods, meta = [], []
+    for d in descs:
+        for entry in ("attr", "derive"):
+            idx = len(mods)
+            mods.append((idx, rf.debug_module(idx, d, entry, rnd)))
+            meta.append((d, entry))
+    mods = T(mods)
+    res, failed = run_modules(mods, "c10")
+    events, emeta = [], []
+    for idx, (d, entry) in enumerate(meta):
+        if idx not in res:
+            events.append({"ev": "rustc_failed"})
+            emeta.append({"desc": d, "entry": entry, "diags": failed.get(idx), "idx": idx})
+            continue
+        for j in res[idx]:
+            e = dict(j)
+            e.pop("id")
+            e["check_render"] = not (hook or {}).get("renamed", False)
+            events.append(e)
+            emeta.append({"desc": d, "entry": entry, "idx": idx})
+    # rejection: more than one transparent field (in-process class)
+    rej = []
+    for shape in ("tuple", "named"):
+        for n in (2, 3):
+            fs = ", ".join(("#[debug(transparent)] " + ("f%d: " % j if shape == "named" else "") + "u8") for j in range(n))
+            body = ("{ %s }" % fs) if shape == "named" else ("( %s );" % fs)
+            rej.append(("struct", "struct X %s" % body, n))
+            rej.append(("enum", "enum X { A, B %s }" % (body.rstrip(";")), n))
+    rr = dx.expand([{"k": "expand", "id": i, "entry": "attr", "attr": "Debug", "item": s} for i, (_, s, _) in enumerate(rej)])
+    for (kind, s, n), r in zip(rej, rr):
+        rejected = r.get("class") == "compile_error" and not any(i["kind"] == "impl" for i in r["items"])
+        events.append({"ev": "debug", "name": "X", "named": False, "fields": [{"name": "", "dbg": "transparent", "leaf": "", "alt": [""]}] * n,
+                       "plain": "", "alt": [""], "twin_equal": True, "diff": "", "rejected": rejected, "check_render": True})
+        emeta.append({"desc": s, "entry": "attr", "idx": None})
+    n, bad, jst = dx.tlc_judge("Trace_Run", "Trace_Run.cfg", events, "c10", chunk=max(200, -(-len(events) // 8)))
+    ck.add_judge(n, jst)
+    for i in bad:
+        e, m = events[i], emeta[i]
+        if e["ev"] == "rustc_failed":
+            sig = {"kind": "rustc_failed", "codes": ",".join(sorted(set(d.get("code") or "?" for d in (m.get("diags") or []))))}
+        else:
+            dbgs = sorted(set(f["dbg"] for f in e["fields"]))
+            sig = {"kind": "debug", "named": e["named"], "nfields": len(e["fields"]), "dbg": "+".join(dbgs), "twin_equal": e["twin_equal"],
+                   "item": m["desc"]["kind"] if isinstance(m["desc"], dict) else "reject"}
+        ck.violation(sig, {"what": "Debug output differs from the std derive minus ignored fields / transparent rule", "event": e,
+                           "source": mods[m["idx"]][1] if m.get("idx") is not None else m["desc"], "diags": m.get("diags")})
+    ck.sample(next((e for e in events if e["ev"] == "debug" and len(e["fields"]) == 2), None))
+    ck.cov["evaluations"] = len(events) * len(rf.FLAGS)
+    ck.cov["distinct_nontrivial"] = len(set(json.dumps(e, sort_keys=True) for e in events))
+    ck.cov["rule"] = "unit/tuple/named structs with 0..3 fields x every subset ignored x each transparent choice, random enums mixing variant kinds, %d format specs, leaf types incl. nested derived struct, float, str, Option, tuple, Vec; both entry points; second oracle: std-derived twin" % len(rf.FLAGS)
+    ck.cov["exhaustive"] = False
+    return ck.finish() if not hook else None
+
+
+# ------------------------------------------------------------------------------------------------
+# C11
+# ------------------------------------------------------------------------------------------------
+def default_descs(tier, rnd):
+    kinds = ["none", "str", "path", "assoc_path", "call", "block", "method"]
+    out = []
+
+    def flds(n, choice=None):
+        return [{"dv": (choice[j] if choice else rnd.choice(kinds)), "underscore": rnd.random() < 0.3} for j in range(n)]
+    # structs: every expression kind on a field, positions, shapes
+    for shape in ("tuple", "named"):
+        for k in kinds:
+            for n in (1, 2, 3):
+                for pos in range(n):
+                    ch = ["none"] * n
+                    ch[pos] = k
+                    out.append({"kind": "struct", "tv": "none", "variants": [{"shape": shape, "dmark": False, "vv": "none", "fields": flds(n, ch)}]})
+    out.append({"kind": "struct", "tv": "none", "variants": [{"shape": "unit", "dmark": False, "vv": "none", "fields": []}]})
+    for tv in ("call", "path"):
+        for shape in ("tuple", "named", "unit"):
+            n = 0 if shape == "unit" else 2
+            out.append({"kind": "struct", "tv": tv, "variants": [{"shape": shape, "dmark": False, "vv": "none", "fields": flds(n)}]})
+    # enums: all choices of default variant(s), single-variant rule, type-level value, value on a variant
+    for nv in (1, 2, 3):
+        for marks in itertools.product((False, True), repeat=nv):
+            for tv in ("none", "call", "path"):
+                for vvpos in ([None] + list(range(nv)) if tv == "none" else [None]):
+                    vs = []
+                    for vi in range(nv):
+                        shape = ["unit", "tuple", "named"][(vi + nv) % 3]
+                        n = 0 if shape == "unit" else 1 + (vi % 2)
+                        vs.append({"shape": shape, "dmark": marks[vi], "vv": "call" if vvpos == vi else "none", "fields": flds(n)})
+                    out.append({"kind": "enum", "tv": tv, "variants": vs})
+    return out
+
+
+def c11(tier, hook=None):
+    ck = hook["ck"] if hook else dx.Check("C11", tier)
+    T = (hook or {}).get("transform") or (lambda ms: ms)
+    st, outp = dx.tlc_run("MC_Default", "MC_Default.cfg", "mc_default", workers=4)
+    if not st["ok"]:
+        ck.violation({"kind": "model", "invariants": st["violated"]}, {"tlc_output": outp, "tail": open(outp).read()[-2000:]})
+        return ck.finish() if not hook else None
+    ck.add_model(st)
+    ck.notes["model"] = {"module": "MC_Default", "states": st.get("distinct")}
+    rnd = random.Random(dx.seed())
+    descs = default_descs(tier, rnd)
+    if tier == "thorough":
+        for s in range(4):
+            descs += default_descs(tier, random.Random(dx.seed() * 77 + s))
+    # in-process: which are rejected by derive_ex itself
+    cases = []
+    for P in descs:
+        for entry in ("attr", "derive"):
+            cases.append((P, entry))
+    reqs = []
+    srcs = []
+    for i, (P, entry) in enumerate(cases):
+        src = rf.default_module(i, P, "attr")
+        m = re.search(r"#\[::derive_ex::derive_ex\(Default\)\] (.*)", src)
+        item = m.group(1)
+        srcs.append(item)
+        if entry == "attr":
+            reqs.append({"k": "expand", "id": i, "entry": "attr", "attr": "Default", "item": item})
+        else:
+            reqs.append({"k": "expand", "id": i, "entry": "derive", "attr": "", "item": "#[derive_ex(Default)] " + item})
+    resps = dx.expand(reqs)
+    mods, midx = [], {}
+    for i, ((P, entry), r) in enumerate(zip(cases, resps)):
+        rejected = r.get("class") == "compile_error" and not any(x["kind"] == "impl" for x in r["items"])
+        if not rejected:
+            mods.append((i, rf.default_module(i, P, entry)))
+    mods = T(mods)
+    res, failed = run_modules(mods, "c11")
+    events, emeta = [], []
+    for i, ((P, entry), r) in enumerate(zip(cases, resps)):
+        rejected = r.get("class") == "compile_error" and not any(x["kind"] == "impl" for x in r["items"])
+        if rejected:
+            events.append({"ev": "default", "P": P, "rejected": True, "variant": 0, "prov": []})
+        elif i in res:
+            j = res[i][0]
+            events.append({"ev": "default", "P": P, "rejected": False, "variant": j["variant"], "prov": j["prov"]})
+        else:
+            events.append({"ev": "rustc_failed"})
+        emeta.append({"P": P, "entry": entry, "idx": i, "diags": failed.get(i)})
+    n, bad, jst = dx.tlc_judge("Trace_Run", "Trace_Run.cfg", events, "c11", chunk=max(200, -(-len(events) // 8)))
+    ck.add_judge(n, jst)
+    for i in bad:
+        e, m = events[i], emeta[i]
+        P = m["P"]
+        dvs = sorted(set(f["dv"] for v in P["variants"] for f in v["fields"]))
+        sig = {"kind": e["ev"], "item": P["kind"], "tv": P["tv"], "marks": [v["dmark"] for v in P["variants"]], "vv": [v["vv"] for v in P["variants"]],
+               "rejected": e.get("rejected"), "dv": "+".join(dvs) if e["ev"] == "rustc_failed" else None,
+               "codes": ",".join(sorted(set(d.get("code") or "?" for d in (m.get("diags") or []))))}
+        ck.violation(sig, {"what": "default() differs from the documented value / rejection rule", "event": e, "source": rf.default_module(m["idx"], P, m["entry"]),
+                           "diags": m.get("diags")})
+    ck.sample(next((e for e in events if e["ev"] == "default" and not e["rejected"] and len(e["prov"]) >= 2), None))
+    ck.cov["evaluations"] = len(events)
+    ck.cov["distinct_nontrivial"] = len(set(json.dumps(e, sort_keys=True) for e in events))
+    ck.cov["rule"] = "structs: every #[default(expr)] kind x position x shape; enums: every marking of 1..3 variants x type-level value x value on a variant; provenance-recording field type; both entry points"
+    ck.cov["exhaustive"] = False
+    return ck.finish() if not hook else None
+
+
+# ------------------------------------------------------------------------------------------------
+# C18
+# ------------------------------------------------------------------------------------------------
+def c18(tier, hook=None):
+    ck = hook["ck"] if hook else dx.Check("C18", tier)
+    T = (hook or {}).get("transform") or (lambda ms: ms)
+    cases = []
+    for named in (False, True):
+        for ti in range(len(rf.DEREF_TYPES)):
+            for generic in (False, True):
+                for entry in ("attr", "derive"):
+                    for where in ((False, True) if generic else (False,)):
+                        cases.append((named, ti, generic, entry, where))
+    mods = [(i, rf.deref_module(i, *c)) for i, c in enumerate(cases)]
+    mods = T(mods)
+    res, failed = run_modules(mods, "c18")
+    events, emeta = [], []
+    for i, c in enumerate(cases):
+        if i in res:
+            j = dict(res[i][0])
+            j.pop("id")
+            j.update({"ev": "deref", "nfields": 1, "rejected": False})
+            events.append(j)
+        else:
+            events.append({"ev": "rustc_failed"})
+        emeta.append({"case": c, "diags": failed.get(i), "idx": i})
+    # rejection for 0 and 2..4 fields, each trait alone and both
+    rej = []
+    for n in (0, 1, 2, 3, 4):
+        for shape in ("tuple", "named", "unit"):
+            if (shape == "unit") != (n == 0) and shape == "unit":
+                continue
+            for traits in (["Deref"], ["DerefMut"], ["Deref", "DerefMut"]):
+                if shape == "unit":
+                    item = "struct X;"
+                elif shape == "named":
+                    item = "struct X { %s }" % ", ".join("f%d: u8" % j for j in range(n))
+                else:
+                    item = "struct X(%s);" % ", ".join("u8" for j in range(n))
+                rej.append((n, traits, item))
+    rr = dx.expand([{"k": "expand", "id": i, "entry": "attr" if i % 2 == 0 else "derive", "attr": ", ".join(t) if i % 2 == 0 else "",
+                     "item": it if i % 2 == 0 else "#[derive_ex(%s)] %s" % (", ".join(t), it)} for i, (n, t, it) in enumerate(rej)])
+    for (nf, traits, item), r in zip(rej, rr):
+        nimpl = sum(1 for x in r.get("items", []) if x["kind"] == "impl")
+        nerr = sum(1 for x in r.get("items", []) if x["kind"] == "compile_error")
+        # every requested trait must be refused (arity != 1) or generated (arity 1)
+        rejected = nimpl == 0 and nerr >= 1
+        accepted = nimpl == len(traits) and nerr == 0
+        events.append({"ev": "deref", "nfields": nf, "rejected": rejected if (rejected or accepted) else (nf == 1),
+                       "same_address": True, "target_is_field_type": True, "mut_same_address": True, "write_lands": True})
+        emeta.append({"case": (nf, traits, item), "idx": None})
+    n, bad, jst = dx.tlc_judge("Trace_Run", "Trace_Run.cfg", events, "c18")
+    ck.add_judge(n, jst)
+    for i in bad:
+        e, m = events[i], emeta[i]
+        sig = {"kind": e["ev"], "case": str(m["case"])[:120], "obs": {k: v for k, v in e.items() if k not in ("ev",)} if e["ev"] == "deref" else None}
+        ck.violation(sig, {"what": "Deref / DerefMut do not target the single field itself, or arity rule broken", "event": e,
+                           "source": mods[m["idx"]][1] if m["idx"] is not None else m["case"], "diags": m.get("diags")})
+    ck.sample(events[0])
+    ck.cov["evaluations"] = len(events)
+    ck.cov["distinct_nontrivial"] = len(cases) + len(rej)
+    ck.cov["rule"] = "single-field tuple/named structs x 5 field types (String, Box<[u8]>, u8, Vec, &str) x generic (inline bound / where) x both entry points: address identity, Target type identity, write-through; arities 0..4 x {Deref},{DerefMut},{both} for the rejection"
+    ck.cov["exhaustive"] = True
+    return ck.finish() if not hook else None
+
+
+# ------------------------------------------------------------------------------------------------
+# C12
+# ------------------------------------------------------------------------------------------------
+def c12(tier, hook=None):
+    ck = hook["ck"] if hook else dx.Check("C12", tier)
+    T = (hook or {}).get("transform") or (lambda ms: ms)
+    rnd = random.Random(dx.seed())
+    N = 150 if tier == "quick" else 1500
+    mods, meta = [], []
+    for k in range(N):
+        d = rf.c12_random(rnd, k)
+        entry = rnd.choice(["attr", "derive"])
+        idx = len(mods)
+        src, checks = rf.c12_module(idx, d, entry)
+        mods.append((idx, src))
+        meta.append({"kind": "random", "traits": d["traits"], "item": d["item"], "entry": entry})
+    for spec in rf.C12_SPECIAL:
+        for entry in ("attr", "derive"):
+            idx = len(mods)
+            mods.append((idx, rf.c12_special_module(idx, spec, entry)))
+            meta.append({"kind": spec[0], "traits": spec[1], "item": spec[2], "entry": entry})
+    mods = T(mods)
+    res, failed = run_modules(mods, "c12")
+    # for what does not compile: does the std twin alone compile?  (a shape std rejects is outside the property)
+    std_ok = {}
+    wd = os.path.join(dx.WORK, "c12-%d" % os.getpid())
+    todo = [i for i in range(len(mods)) if i not in res]
+
+    def twin_only(i):
+        m = meta[i]
+        src = rf.HEAD + "#[derive(%s)] %s\n" % (", ".join(m["traits"]), m["item"])
+        ok, diags = dx.check_only("t%d" % i, src, wd)
+        return i, ok
+    for i, ok in dx.pmap(twin_only, todo):
+        std_ok[i] = ok
+    import shutil
+    shutil.rmtree(wd, ignore_errors=True)
+    events = []
+    for i, m in enumerate(meta):
+        if i in res:
+            j = res[i][0]
+            results = [{"name": k, "ok": bool(v)} for k, v in j.items() if k not in ("id", "nvals", "diff")]
+            events.append({"ev": "twin", "traits": m["traits"], "rustc_ok": True, "std_ok": True, "nvals": j["nvals"], "results": results})
+        else:
+            events.append({"ev": "twin", "traits": m["traits"], "rustc_ok": False, "std_ok": bool(std_ok.get(i)), "nvals": 0, "results": []})
+    n, bad, jst = dx.tlc_judge("Trace_Run", "Trace_Run.cfg", events, "c12")
+    ck.add_judge(n, jst)
+    skipped = 0
+    for i in bad:
+        e, m = events[i], meta[i]
+        if not e["rustc_ok"] and not e["std_ok"]:
+            skipped += 1          # the standard derive rejects this shape as well: not a counter-example (generator artefact)
+            continue
+        failing = sorted(r["name"] for r in e["results"] if not r["ok"])
+        codes = ",".join(sorted(set(d.get("code") or "?" for d in (failed.get(i) or []))))
+        sig = {"kind": m["kind"] if m["kind"] != "random" else "random_shape", "rustc_ok": e["rustc_ok"], "failing": "+".join(failing), "codes": codes}
+        if m["kind"] == "random":
+            sig["raw_idents"] = "r#" in m["item"]
+            sig["empty"] = False
+        ck.violation(sig, {"what": "derive_ex is not a drop-in for the standard derive on this attribute-free item", "item": m["item"], "traits": m["traits"],
+                           "entry": m["entry"], "event": e, "diags": failed.get(i), "diff": (res.get(i) or [{}])[0].get("diff")})
+    ck.notes["std_rejects_too"] = skipped
+    ck.sample({"item": meta[0]["item"], "traits": meta[0]["traits"], "event": events[0]})
+    ck.cov["evaluations"] = len(events)
+    ck.cov["distinct_nontrivial"] = len(set(m["item"] for m in meta))
+    ck.cov["rule"] = "seeded random attribute-free struct/enum shapes (0..5 variants, 0..4 fields, lifetime / type / const parameters with defaults and where-clauses, raw identifiers, repr / non_exhaustive) with all eight traits, plus special shapes (empty enums, unsized tails, floats with NaN, parameters named H, raw names, Self in where); std-derived twin as oracle"
+    ck.cov["exhaustive"] = False
+    ck.assumptions.append("decisive oracles: rustc (compiles) and the standard derives (behaviour)")
+    return ck.finish() if not hook else None
